@@ -350,10 +350,10 @@ type bItem struct {
 }
 
 type bResp struct {
-	fail     int // 0 no; 1 reset before header; 2 undecodable header; 3 close without header
-	pending  uint64
-	pt       gpbft.PowerEntries
-	items    []bItem
+	fail    int // 0 no; 1 reset before header; 2 undecodable header; 3 close without header
+	pending uint64
+	pt      gpbft.PowerEntries
+	items   []bItem
 }
 
 type byzResponder struct {
@@ -361,11 +361,14 @@ type byzResponder struct {
 	script []bResp
 	n      int
 	reqs   []certexchange.Request
+	// onFirst runs when the first request of a script arrives, i.e. after the poller's CatchUp and before it
+	// reads the response: certificates reaching its store through another channel in that window
+	onFirst func()
 }
 
 func (b *byzResponder) set(script []bResp) {
 	b.mu.Lock()
-	b.script, b.n, b.reqs = script, 0, nil
+	b.script, b.n, b.reqs, b.onFirst = script, 0, nil, nil
 	b.mu.Unlock()
 }
 
@@ -384,7 +387,11 @@ func (b *byzResponder) handle(stream network.Stream) {
 	if ok {
 		resp = b.script[idx]
 	}
+	hook := b.onFirst
 	b.mu.Unlock()
+	if idx == 0 && hook != nil {
+		hook()
+	}
 	if !ok || resp.fail == 1 {
 		_ = stream.Reset()
 		return
@@ -786,6 +793,32 @@ func byzPollCases(h, other *certgen.History) {
 		}
 		byz.set(script)
 		out.Line("# byzpoll %s %s", strings.Join(tags, "+"), kinds(script))
+		if rng.Chance(1, 3) && kk < len(h.Certs) {
+			// while the request is in flight the next certificates arrive through another channel (GPBFT). The
+			// peer answers with genuine certificates here: a different validly signed certificate for an instance
+			// that GPBFT itself finalized cannot exist below 1/3 faulty power.
+			j := 1 + rng.Intn(min(3, len(h.Certs)-kk))
+			arr := h.Certs[kk : kk+j]
+			m := rng.Intn(min(j+3, len(h.Certs)-kk) + 1)
+			r := bResp{pending: h.First + uint64(kk+m)}
+			if rng.Chance(1, 4) {
+				r.pending += uint64(rng.Intn(3))
+			}
+			for _, c := range h.Certs[kk : kk+m] {
+				r.items = append(r.items, bItem{kind: 'c', cert: c})
+			}
+			script = []bResp{r}
+			byz.set(script)
+			byz.mu.Lock()
+			byz.onFirst = func() {
+				for _, c := range arr {
+					_ = pe.cs.Put(ctx, c)
+				}
+			}
+			byz.mu.Unlock()
+			pe.poll(byzHost, "scriptmid "+scriptText(script)+" "+g.CertIDs(arr))
+			continue
+		}
 		pe.poll(byzHost, "script "+scriptText(script))
 		if rng.Chance(1, 3) && pe.next() >= 0 && pe.next() < len(h.Certs) {
 			// a certificate arrives through another channel (GPBFT itself): the poller must catch up
